@@ -1113,13 +1113,20 @@ impl Sim {
                     while self.deliver_s2c(client, 0, 0) {}
                     self.client_frame(client);
                 }
-                if what & 8 != 0 && self.parents[slot].is_some() {
+                let dissolve = what & 8 != 0 && self.parents[slot].is_some();
+                if dissolve && !restart {
                     // a relationship dissolved right before the session ends (no tick in between)
                     self.step(&Step::DelParent { slot });
                 }
                 self.flags.insert("fault_episode");
                 if restart {
-                    self.step(&Step::ServerRestart);
+                    self.step(&Step::ServerStop);
+                    if dissolve {
+                        // ... or while the server is stopped
+                        self.step(&Step::DelParent { slot });
+                    }
+                    self.server_frame(false);
+                    self.step(&Step::ServerStart);
                 } else {
                     self.step(&Step::Disconnect { client });
                 }
